@@ -139,6 +139,7 @@ public:
          plan[ "recipe2"] = r2;
       }
 
+      recipes::g_text_blocks = true;
       recipes::Built  built;
       {
          recipes::Dest       d;
@@ -203,6 +204,39 @@ public:
          if (wl.chance( 1, 2)) words.push_back( punctWord( wl));
       }
       if (words.size() > max_words) words.resize( max_words);
+      // the standard arguments that the chosen flags add (help, usage variants,
+      // lists of arguments): mostly behind the other words, so that the usage
+      // shows the values set so far as default values
+      {
+         struct Ctl { const char* flag; const char* word; bool takes_key; };
+         static const Ctl  ctls[] = {
+            { "hfHelpShort", "-h", false }, { "hfHelpLong", "--help", false }, { "hfHelpArg", "--help-arg", true },
+            { "hfHelpArgFull", "--help-arg-full", true }, { "hfArgHidden", "--print-hidden", false },
+            { "hfArgDeprecated", "--print-deprecated", false }, { "hfUsageShort", "--help-short", false },
+            { "hfUsageLong", "--help-long", false }, { "hfListArgVar", "--list-arg-vars", false },
+            { "hfListArgGroups", "--list-arg-groups", false }, { "hfVerboseArgs", "--verbose-args", false },
+            { "hfEndValues", "--endvalues", false } };
+         for (auto const& c : ctls)
+         {
+            bool  enabled = false;
+            for (auto const& f : flags.arr()) if (f.s() == c.flag) enabled = true;
+            if (!enabled || !wl.chance( 1, 2)) continue;
+            size_t  at = words.size() - std::min< size_t>( words.size(), static_cast< size_t>( wl.below( 3)));
+            if (wl.chance( 1, 5)) at = static_cast< size_t>( wl.below( words.size() + 1));
+            if (c.takes_key)
+            {
+               std::string  key = "x";
+               if (!built.args.empty() && wl.chance( 4, 5))
+               {
+                  auto const&  a = built.args[ wl.below( built.args.size())];
+                  key = (!a.lkey.empty() && (a.skey.empty() || wl.chance( 1, 2))) ? a.lkey : a.skey;
+                  if (wl.chance( 1, 2)) key = (key.size() > 1 ? "--" : "-") + key;
+               }
+               words.insert( words.begin() + static_cast< long>( at), key);
+            }
+            words.insert( words.begin() + static_cast< long>( at), c.word);
+         }
+      }
       Json  wj = Json::array();
       for (auto const& w : words) wj.push( w);
       plan[ "words"] = wj;
